@@ -310,8 +310,10 @@ prop("C06", harness="h_approx",
           "dropped edge (class 'approximation-strictly-worse-than-optimum' counts the cases where the bound is really exercised).",
      assumptions=["exact weight domain; bound checked for k <= 10^6 (for larger k it is implied by validity)"])
 prop("C15", harness="h_approx",
-     quick=dict(shards=16, cases=3000, env={"VERIF_MAXN": "20"}),
-     thorough=dict(shards=16, cases=25000, env={"VERIF_MAXN": "40"}),
+     quick=dict(shards=16, cases=3000, env={"VERIF_MAXN": "20"},
+                extra_phases=[dict(shards=16, cases=300, env={"VERIF_MAXN": "70", "VERIF_MAXM": "400"}, seed_offset=400)]),
+     thorough=dict(shards=16, cases=25000, env={"VERIF_MAXN": "40"},
+                   extra_phases=[dict(shards=16, cases=3000, env={"VERIF_MAXN": "150", "VERIF_MAXM": "900"}, seed_offset=400)]),
      rule="BaseApproxSpannerAlgorithm constructed (no run) on generated graphs with tie-heavy palettes, k in 1..8; oracle through the guarded read-only "
           "accessors: spanner has n vertices; translation map is a bijection between spanner edges and retained input edges with equal endpoints; "
           "spanner weight == input weight per retained edge; retained and dropped partition E; every dropped (u,v) has a BFS path of <= 2k-1 "
@@ -320,13 +322,13 @@ prop("C15", harness="h_approx",
 prop("C10", harness="h_dimacs",
      quick=dict(shards=16, cases=6000, fuzz=dict(harness="fz_dimacs", jobs=4, runs=150000, max_len=512, seed_corpus="corpus/dimacs")),
      thorough=dict(shards=16, cases=100000, fuzz=dict(harness="fz_dimacs", jobs=16, time=180, max_len=1024, seed_corpus="corpus/dimacs")),
-     rule="Structure-aware DIMACS text generator (comments 'c'/'#' with arbitrary printable payload up to 900 bytes, problem word palette, "
+     rule="Structure-aware DIMACS text generator (up to 3000 vertices and 400 edge lines, comments 'c'/'#' with arbitrary printable payload up to the longest line the 1024-byte buffer takes whole, edge lines padded with hundreds of separators, problem word palette, "
           "arbitrary declared m, 'e'/'a' edge lines with space/tab separators, loops and repeated pairs, optional weight tokens: integer, decimal, "
           "negative, zero, exponent; optional edge naming vertex 0 or n+1; trailing newline present/absent) fed through fmemopen; oracle = an "
           "independent reference parser of the same bytes: vertex count, edges in file order with the same endpoints, weight == strtod(token) or 1 "
           "exactly, exception iff an undeclared vertex is named, has_loops / has_non_positive_weights / has_multiple_edges == recomputation. "
           "Non-trivial = >=1 edge line and (no trailing newline or an omitted weight or a comment between edge lines).",
-     assumptions=["lines < 1000 bytes, no blank lines, no CR/NUL bytes, exactly one problem line before the first edge line (the stated domain)",
+     assumptions=["lines of at most 1022 bytes plus newline, no blank lines, no CR/NUL bytes, exactly one problem line before the first edge line (the stated domain)",
                   "graph type adjacency_list<vecS,vecS,undirectedS,no_property,edge_weight double> as in the demos"])
 prop("C17", harness="h_alg",
      quick=dict(shards=16, cases=5000),
